@@ -32,7 +32,7 @@ def run(tier, replay_path=None):
         tlc_must_pass(mc, "MCInsert")
         states, gen, mvs = mc.distinct, mc.generated, len(mc.payloads("MV"))
         hists = mc.json_payloads("CASE")
-        log("[C10] MC: %d states (all histories of <= %d calls over 25 actions), %d model-level counterexamples, %.0fs" % (mc.distinct, n, mvs, mc.wall))
+        log("[C10] MC: %d states (all histories of <= %d calls over 30 actions), %d model-level counterexamples, %.0fs" % (mc.distinct, n, mvs, mc.wall))
         if tier == "quick":
             hists = [h for h in hists if len(h) <= 2] + sample([h for h in hists if len(h) > 2], 3000, rng)
         else:
